@@ -127,6 +127,11 @@ Check(r, pre, post) ==
             [] Prop = "C13" -> HeadsOk(r, post))
     [] r.ev = "RemoveDoc" -> r.res = "ok" /\ post = {} /\ (Prop = "C13" => r.heads = <<>>)
     [] r.ev = "Reopen" -> post = pre /\ (Prop = "C13" => HeadsOk(r, post))
+    [] r.ev = "News" ->
+         /\ post = pre
+         /\ (Prop = "C13" => /\ HeadsOk(r, post)
+                             /\ r.count = NewsCount(HeadsTs(r.theirs), HeadsOf(post)))
+         /\ (Prop = "C12" => \A s \in 1..Len(r.evs) : r.evs[s] = <<>>)
     [] r.ev \in {"Sub", "Unsub", "DropRx", "Policy"} ->
          /\ post = pre
          /\ (Prop = "C12" => \A s \in 1..Len(r.evs) : r.evs[s] = <<>>)
